@@ -2,6 +2,7 @@ package rules
 
 import (
 	"fmt"
+	"go/ast"
 	"go/constant"
 	"go/token"
 	"go/types"
@@ -854,5 +855,152 @@ func ruleEpubModePassthrough(c *eng.Ctx) {
 			sort.Strings(bad)
 			c.Check(len(bad) == 0, R, fmt.Sprintf("%s#mode%d", eng.FuncName(fn), n), st.Pos(), "each mode is handed on unchanged", strings.Join(bad, "; ")+": through the EPUB entry point a stricter mode no longer returns a subsequence of the weaker one")
 		})
+	}
+}
+
+// blockModel: block-level content model of the formats' body and table elements, restricted to children that carry
+// text (ECMA-376 part 1, 17.2.2 body, 17.4.38 tbl, 17.4.79 tr, 17.4.66 tc with EG_BlockLevelElts / EG_ContentRowContent
+// / EG_ContentCellContent: the structured document tag and custom XML wrappers may stand wherever their content may).
+var blockModel = map[string]map[string][]string{
+	"docx": {
+		"body": {"p", "tbl", "sdt", "sdtContent", "customXml"},
+		"tbl":  {"tr", "sdt", "sdtContent", "customXml"},
+		"tr":   {"tc", "sdt", "sdtContent", "customXml"},
+		"tc":   {"p", "tbl", "sdt", "sdtContent", "customXml"},
+	},
+}
+
+func xmlTagName(tag string) string {
+	i := strings.Index(tag, `xml:"`)
+	if i < 0 {
+		return ""
+	}
+	t := tag[i+5:]
+	if j := strings.Index(t, `"`); j >= 0 {
+		t = t[:j]
+	}
+	if strings.Contains(t, ",attr") || strings.Contains(t, ",chardata") || t == "-" {
+		return ""
+	}
+	if j := strings.Index(t, ","); j >= 0 {
+		t = t[:j]
+	}
+	if j := strings.LastIndex(t, " "); j >= 0 { // "namespace local"
+		t = t[j+1:]
+	}
+	return t
+}
+
+// R16.9 [C16]
+func ruleBlockContentModel(c *eng.Ctx) {
+	const R = "R16.9-BLOCK-CONTENT-MODEL"
+	c.Rule(R, "the decoders of the DOCX body, table, row and cell know every block-level child of the content model that carries text, including the grouping wrappers (content controls, custom XML) that may stand wherever their content may: a child kind a decoder has no field or dispatch label for is dropped with all the text below it", 4, 0)
+	for _, pkg := range c.P.Pkgs {
+		model, ok := blockModel[pkg.Name]
+		if !ok || !strings.HasSuffix(pkg.PkgPath, "/"+pkg.Name) {
+			continue
+		}
+		scope := pkg.Types.Scope()
+		// element name -> struct type decoded for it (XMLName tag, or the tag of a field of that type)
+		elemType := map[string]*types.Named{}
+		for _, n := range scope.Names() {
+			tn, ok := scope.Lookup(n).(*types.TypeName)
+			if !ok {
+				continue
+			}
+			st, ok := tn.Type().Underlying().(*types.Struct)
+			if !ok {
+				continue
+			}
+			for i := 0; i < st.NumFields(); i++ {
+				name := xmlTagName(st.Tag(i))
+				if name == "" {
+					continue
+				}
+				if st.Field(i).Name() == "XMLName" {
+					if nt, ok := tn.Type().(*types.Named); ok {
+						elemType[name] = nt
+					}
+					continue
+				}
+				ft := st.Field(i).Type()
+				for {
+					switch u := ft.(type) {
+					case *types.Pointer:
+						ft = u.Elem()
+						continue
+					case *types.Slice:
+						ft = u.Elem()
+						continue
+					}
+					break
+				}
+				if nt, ok := ft.(*types.Named); ok && nt.Obj().Pkg() == pkg.Types {
+					if _, isStruct := nt.Underlying().(*types.Struct); isStruct {
+						if _, dup := elemType[name]; !dup {
+							elemType[name] = nt
+						}
+					}
+				}
+			}
+		}
+		elems := make([]string, 0, len(model))
+		for e := range model {
+			elems = append(elems, e)
+		}
+		sort.Strings(elems)
+		for _, e := range elems {
+			nt := elemType[e]
+			key := pkg.Name + " <" + e + ">"
+			if nt == nil {
+				c.Undec(R, key, token.NoPos, "no struct is decoded for this element")
+				continue
+			}
+			known := map[string]bool{}
+			how := "struct tags"
+			fd := c.P.Decl(pkg.Name + ".(*" + nt.Obj().Name() + ").UnmarshalXML")
+			if fd != nil {
+				how = "dispatch labels of " + nt.Obj().Name() + ".UnmarshalXML"
+				// string constants of the hand-written decoder and of the package helpers it calls
+				var collect func(d *eng.FuncDecl, depth int)
+				seen := map[*eng.FuncDecl]bool{}
+				collect = func(d *eng.FuncDecl, depth int) {
+					if d == nil || seen[d] || depth > 2 {
+						return
+					}
+					seen[d] = true
+					ast.Inspect(d.Decl.Body, func(n ast.Node) bool {
+						switch x := n.(type) {
+						case *ast.BasicLit:
+							if tv, ok := d.Pkg.TypesInfo.Types[x]; ok && tv.Value != nil && tv.Value.Kind() == constant.String {
+								known[constant.StringVal(tv.Value)] = true
+							}
+						case *ast.CallExpr:
+							if id, ok := x.Fun.(*ast.Ident); ok {
+								if fnObj, ok := d.Pkg.TypesInfo.Uses[id].(*types.Func); ok && fnObj.Pkg() == pkg.Types {
+									collect(c.P.Decl(pkg.Name+"."+fnObj.Name()), depth+1)
+								}
+							}
+						}
+						return true
+					})
+				}
+				collect(fd, 0)
+			} else if st, ok := nt.Underlying().(*types.Struct); ok {
+				for i := 0; i < st.NumFields(); i++ {
+					if n := xmlTagName(st.Tag(i)); n != "" {
+						known[n] = true
+					}
+				}
+			}
+			var missing []string
+			for _, child := range model[e] {
+				if !known[child] {
+					missing = append(missing, "<"+child+">")
+				}
+			}
+			c.Check(len(missing) == 0, R, key, nt.Obj().Pos(), "decodes "+strings.Join(model[e], ", ")+" ("+how+")",
+				nt.Obj().Name()+" has no field or dispatch label for "+strings.Join(missing, ", ")+" children of <"+e+">: paragraphs and tables below them are dropped from every output")
+		}
 	}
 }
